@@ -500,4 +500,945 @@ theorem validate_ttm_seq_ok_iff (a : TtmArgs) :
         simp only [hne, ne_eq, not_false_eq_true, true_and]
         exact ⟨fun h p hp' => h p (hperm.mem_iff.2 hp'), fun h p hp' => h p (hperm.mem_iff.1 hp')⟩
 
+/-! ### mttkrp -/
+
+theorem usedIdx_all (N : Nat) (n : Int) (q : Nat → Bool) :
+    (usedIdx N n).all q = true ↔ ∀ i, i < N → (i : Int) ≠ n → q i = true := by
+  unfold usedIdx
+  rw [List.all_eq_true]
+  constructor
+  · intro h i hi hne
+    exact h i (List.mem_filter.2 ⟨List.mem_range.2 hi, by simpa using hne⟩)
+  · intro h i hi
+    obtain ⟨h1, h2⟩ := List.mem_filter.1 hi
+    exact h i (List.mem_range.1 h1) (by simpa using h2)
+
+theorem isMode_dec (N : Nat) (n : Int) : (decide (0 ≤ n) && decide (n < (N : Int))) = true ↔ IsMode N n := by
+  simp [IsMode]
+
+theorem notMode_dec (N : Nat) (n : Int) : (!(decide (0 ≤ n) && decide (n < (N : Int)))) = true ↔ ¬ IsMode N n := by
+  rw [Bool.not_eq_true', ← Bool.not_eq_true, isMode_dec]
+
+theorem not_bnot_true (b : Bool) : ¬ ((!b) = true) ↔ b = true := by cases b <;> simp
+
+theorem bnot_true (b : Bool) : ((!b) = true) ↔ ¬ b = true := by cases b <;> simp
+
+theorem two_le_of_mode {N : Nat} {n : Int} (h : IsMode N n) (h2 : ¬ (if n = 0 then N < 2 else N < 1)) : 2 ≤ N := by
+  unfold IsMode at h
+  by_cases h0 : n = 0
+  · rw [if_pos h0] at h2; omega
+  · omega
+
+theorem prod_eq_iff (x : MatS) (a b : Nat) : x = (a, b) ↔ x.1 = a ∧ x.2 = b := by
+  cases x; simp
+
+theorem validate_mttkrp_sparse_ok_iff (a : MttkrpArgs) : validate_mttkrp_sparse a = .ok () ↔ Pre_mttkrp a := by
+  unfold validate_mttkrp_sparse Pre_mttkrp
+  by_cases h1 : IsMode a.shape.length a.n
+  · rw [if_neg (by rw [notMode_dec]; exact not_not.2 h1)]
+    by_cases h2 : a.U.length = a.shape.length
+    · rw [if_neg (by simp [h2])]
+      by_cases h3 : (if a.n = 0 then a.shape.length < 2 else a.shape.length < 1)
+      · rw [if_pos (by simpa using h3)]
+        simp only [error_ne_ok, false_iff]
+        rintro ⟨h, _⟩
+        unfold IsMode at h1
+        by_cases h0 : a.n = 0
+        · rw [if_pos h0] at h3; omega
+        · rw [if_neg h0] at h3; omega
+      · rw [if_neg (by simpa using h3), rejectIf_ok, Bool.not_eq_false', usedIdx_all]
+        simp only [beq_iff_eq, h1, h2, two_le_of_mode h1 h3, true_and]
+    · rw [if_pos (by simp [h2])]
+      simp [h2]
+  · rw [if_pos (by rw [notMode_dec]; exact h1)]
+    simp [h1]
+
+theorem validate_mttkrp_ktensor_ok_iff (a : MttkrpArgs) : validate_mttkrp_ktensor a = .ok () ↔ Pre_mttkrp a := by
+  unfold validate_mttkrp_ktensor Pre_mttkrp
+  by_cases h1 : IsMode a.shape.length a.n
+  · rw [if_neg (by rw [notMode_dec]; exact not_not.2 h1)]
+    by_cases h2 : a.U.length = a.shape.length
+    · rw [if_neg (by simp [h2])]
+      by_cases h3 : (if a.n = 0 then a.shape.length < 2 else a.shape.length < 1)
+      · rw [if_pos (by simpa using h3)]
+        simp only [error_ne_ok, false_iff]
+        rintro ⟨h, _⟩
+        unfold IsMode at h1
+        by_cases h0 : a.n = 0
+        · rw [if_pos h0] at h3; omega
+        · rw [if_neg h0] at h3; omega
+      · rw [if_neg (by simpa using h3)]
+        by_cases h4 : (usedIdx a.shape.length a.n).all (fun i => (a.U.getD i (0, 0)).2 == usedR a.U a.n) = true
+        · rw [if_neg (by rw [not_bnot_true]; exact h4), rejectIf_ok, Bool.not_eq_false', usedIdx_all]
+          rw [usedIdx_all] at h4
+          simp only [beq_iff_eq, h1, h2, two_le_of_mode h1 h3, true_and, prod_eq_iff] at h4 ⊢
+          exact ⟨fun h i hi hne => ⟨h i hi hne, h4 i hi hne⟩, fun h i hi hne => (h i hi hne).1⟩
+        · rw [if_pos (by rw [bnot_true]; exact h4)]
+          simp only [error_ne_ok, false_iff]
+          rintro ⟨_, _, _, h⟩
+          apply h4
+          rw [usedIdx_all]
+          intro i hi hne
+          rw [beq_iff_eq]
+          exact ((prod_eq_iff _ _ _).1 (h i hi hne)).2
+    · rw [if_pos (by simp [h2])]
+      simp [h2]
+  · rw [if_pos (by rw [notMode_dec]; exact h1)]
+    simp [h1]
+
+theorem getD_of_lt {β : Type} (l : List β) (i : Nat) (d : β) (h : i < l.length) : l.getD i d = l[i] := by
+  rw [List.getD_eq_getElem?_getD, List.getElem?_eq_getElem h, Option.getD_some]
+
+theorem all_drop {β : Type} (l : List β) (k : Nat) (d : β) (q : β → Bool) :
+    (l.drop k).all q = true ↔ ∀ i, k ≤ i → i < l.length → q (l.getD i d) = true := by
+  rw [List.all_eq_true]
+  constructor
+  · intro h i hk hi
+    apply h
+    rw [getD_of_lt l i d hi, List.mem_iff_getElem?]
+    refine ⟨i - k, ?_⟩
+    rw [List.getElem?_drop, show k + (i - k) = i by omega, List.getElem?_eq_getElem hi]
+  · intro h x hx
+    obtain ⟨j, hj⟩ := List.mem_iff_getElem?.1 hx
+    rw [List.getElem?_drop] at hj
+    obtain ⟨hlt, rfl⟩ := List.getElem?_eq_some_iff.1 hj
+    have := h (k + j) (by omega) hlt
+    rwa [getD_of_lt l (k + j) d hlt] at this
+
+theorem all_take {β : Type} (l : List β) (k : Nat) (d : β) (q : β → Bool) :
+    (l.take k).all q = true ↔ ∀ i, i < k → i < l.length → q (l.getD i d) = true := by
+  rw [List.all_eq_true]
+  constructor
+  · intro h i hk hi
+    apply h
+    rw [getD_of_lt l i d hi, List.mem_iff_getElem?]
+    refine ⟨i, ?_⟩
+    rw [List.getElem?_take_of_lt hk, List.getElem?_eq_getElem hi]
+  · intro h x hx
+    obtain ⟨j, hj⟩ := List.mem_iff_getElem?.1 hx
+    obtain ⟨hlt, hx'⟩ := List.getElem?_eq_some_iff.1 hj
+    have hlt' : j < k ∧ j < l.length := by
+      rw [List.length_take] at hlt; omega
+    rw [List.getElem_take] at hx'
+    subst hx'
+    have := h j hlt'.1 hlt'.2
+    rwa [getD_of_lt l j d hlt'.2] at this
+
+/-- `khatrirao` of a non-empty group answers the column count of its first matrix iff all agree -/
+theorem krCols_ok_iff (g : List MatS) (c : Nat) :
+    krCols g = .ok c ↔ g ≠ [] ∧ c = (g.getD 0 (0, 0)).2 ∧ g.all (fun x => x.2 == (g.getD 0 (0, 0)).2) = true := by
+  cases g with
+  | nil => simp [krCols]
+  | cons m rest =>
+    show (if rest.all (fun x => x.2 == m.2) = true then Except.ok m.2 else Except.error Reject.reject) = Except.ok c ↔ _
+    by_cases h : rest.all (fun x => x.2 == m.2) = true
+    · rw [if_pos h]
+      simp only [Except.ok.injEq, ne_eq, reduceCtorEq, not_false_eq_true, List.getD_cons_zero, List.all_cons,
+        beq_self_eq_true, Bool.true_and, h, and_true, true_and]
+      exact eq_comm
+    · rw [if_neg h]
+      simp only [reduceCtorEq, ne_eq, not_false_eq_true, List.getD_cons_zero, List.all_cons, beq_self_eq_true,
+        Bool.true_and, true_and, false_iff, not_and]
+      intro _; exact h
+
+theorem getD_drop_zero {β : Type} (l : List β) (k : Nat) (d : β) : (l.drop k).getD 0 d = l.getD k d := by
+  simp [List.getD_eq_getElem?_getD, List.getElem?_drop]
+
+theorem getD_take_zero {β : Type} (l : List β) (k : Nat) (d : β) (hk : 0 < k) : (l.take k).getD 0 d = l.getD 0 d := by
+  simp [List.getD_eq_getElem?_getD, List.getElem?_take_of_lt hk]
+
+/-- the three Khatri-Rao branches of the dense `mttkrp` succeed iff all used factors have the
+column count of the first used one -/
+theorem krTail_ok_iff (U : List MatS) (N n : Nat) (hN : 2 ≤ N) (hn : n < N) (hU : U.length = N) :
+    krTail U N n (if n = 0 then (U.getD 1 (0, 0)).2 else (U.getD 0 (0, 0)).2) = Except.ok () ↔
+    ∀ i, i < N → i ≠ n → (U.getD i (0, 0)).2 = (if n = 0 then (U.getD 1 (0, 0)).2 else (U.getD 0 (0, 0)).2) := by
+  unfold krTail
+  by_cases h0 : n = 0
+  · subst h0
+    rw [if_pos (by simp), map_unit_ok]
+    simp only [krCols_ok_iff, getD_drop_zero, all_drop _ 1 (0, 0), beq_iff_eq, if_true]
+    have hne : U.drop 1 ≠ [] := by
+      intro e
+      have : (U.drop 1).length = 0 := by rw [e]; rfl
+      rw [List.length_drop] at this; omega
+    constructor
+    · rintro ⟨c, _, _, h⟩ i hi hne'
+      exact h i (by omega) (by omega)
+    · intro h
+      exact ⟨_, hne, rfl, fun i h1 h2 => h i (by omega) (by omega)⟩
+  · rw [if_neg (by simpa using h0), if_neg h0]
+    by_cases h1 : n = N - 1
+    · rw [if_pos (by simp [h1]), map_unit_ok]
+      simp only [krCols_ok_iff, getD_take_zero _ _ _ (show 0 < N - 1 by omega), all_take _ (N - 1) (0, 0), beq_iff_eq]
+      have hne : U.take (N - 1) ≠ [] := by
+        intro e
+        have : (U.take (N - 1)).length = 0 := by rw [e]; rfl
+        rw [List.length_take] at this; omega
+      constructor
+      · rintro ⟨c, _, _, h⟩ i hi hne'
+        exact h i (by omega) (by omega)
+      · intro h
+        exact ⟨_, hne, rfl, fun i h1' h2 => h i (by omega) (by omega)⟩
+    · rw [if_neg (by simpa using h1)]
+      have hne1 : U.drop (n + 1) ≠ [] := by
+        intro e
+        have : (U.drop (n + 1)).length = 0 := by rw [e]; rfl
+        rw [List.length_drop] at this; omega
+      have hne2 : U.take n ≠ [] := by
+        intro e
+        have : (U.take n).length = 0 := by rw [e]; rfl
+        rw [List.length_take] at this; omega
+      cases hk1 : krCols (U.drop (n + 1)) with
+      | error e =>
+        simp only [error_ne_ok, false_iff]
+        intro h
+        have : krCols (U.drop (n + 1)) = .ok (U.getD (n + 1) (0, 0)).2 := by
+          rw [krCols_ok_iff, getD_drop_zero, all_drop _ (n + 1) (0, 0)]
+          refine ⟨hne1, rfl, fun i h1' h2 => ?_⟩
+          rw [beq_iff_eq, h i (by omega) (by omega), h (n + 1) (by omega) (by omega)]
+        rw [hk1] at this; cases this
+      | ok c2 =>
+        obtain ⟨_, hc2, hall1⟩ := (krCols_ok_iff _ _).1 hk1
+        rw [getD_drop_zero] at hc2 hall1
+        rw [all_drop _ (n + 1) (0, 0)] at hall1
+        cases hk2 : krCols (U.take n) with
+        | error e =>
+          simp only [error_ne_ok, false_iff]
+          intro h
+          have : krCols (U.take n) = .ok (U.getD 0 (0, 0)).2 := by
+            rw [krCols_ok_iff, getD_take_zero _ _ _ (show 0 < n by omega), all_take _ n (0, 0)]
+            refine ⟨hne2, rfl, fun i h1' h2 => ?_⟩
+            rw [beq_iff_eq]
+            by_cases hi0 : i = 0
+            · subst hi0; rfl
+            · exact h i (by omega) (by omega)
+          rw [hk2] at this; cases this
+        | ok c1 =>
+          obtain ⟨_, _, hall2⟩ := (krCols_ok_iff _ _).1 hk2
+          rw [getD_take_zero _ _ _ (show 0 < n by omega), all_take _ n (0, 0)] at hall2
+          simp only [rejectIf_ok, bne_eq_false_iff_eq]
+          constructor
+          · intro hc i hi hne'
+            by_cases hlt : i < n
+            · exact beq_iff_eq.1 (hall2 i hlt (by omega))
+            · have := beq_iff_eq.1 (hall1 i (by omega) (by omega))
+              rw [this, ← hc2, hc]
+          · intro h
+            rw [hc2, h (n + 1) (by omega) (by omega)]
+
+theorem validate_mttkrp_dense_ok_iff (a : MttkrpArgs) : validate_mttkrp_dense a = .ok () ↔ Pre_mttkrp a := by
+  unfold validate_mttkrp_dense Pre_mttkrp
+  by_cases h0 : a.shape.length < 2
+  · rw [if_pos (by simpa using h0)]
+    simp only [error_ne_ok, false_iff]
+    rintro ⟨h, _⟩; omega
+  rw [if_neg (by simpa using h0)]
+  by_cases h1 : IsMode a.shape.length a.n
+  · rw [if_neg (by rw [notMode_dec]; exact not_not.2 h1)]
+    by_cases h2 : a.U.length = a.shape.length
+    · rw [if_neg (by simp [h2])]
+      by_cases h4 : (usedIdx a.shape.length a.n).all (fun i => (a.U.getD i (0, 0)).1 == a.shape.getD i 0) = true
+      · rw [if_neg (by rw [not_bnot_true]; exact h4)]
+        have hn0 : 0 ≤ a.n := h1.1
+        have hnN : a.n.toNat < a.shape.length := by have := h1.2; omega
+        have hR : usedR a.U a.n = (if a.n.toNat = 0 then (a.U.getD 1 (0, 0)).2 else (a.U.getD 0 (0, 0)).2) := by
+          unfold usedR
+          by_cases hz : a.n = 0
+          · rw [if_pos hz, if_pos (by omega)]
+          · rw [if_neg hz, if_neg (by omega)]
+        rw [hR]
+        have := krTail_ok_iff a.U a.shape.length a.n.toNat (by omega) hnN h2
+        rw [this]
+        rw [usedIdx_all] at h4
+        simp only [h1, h2, true_and, prod_eq_iff, show 2 ≤ a.shape.length by omega, beq_iff_eq] at h4 ⊢
+        constructor
+        · intro h i hi hne
+          exact ⟨h4 i hi hne, h i hi (by omega)⟩
+        · intro h i hi hne
+          exact (h i hi (by omega)).2
+      · rw [if_pos (by rw [bnot_true]; exact h4)]
+        simp only [error_ne_ok, false_iff]
+        rintro ⟨_, _, _, h⟩
+        apply h4
+        rw [usedIdx_all]
+        intro i hi hne
+        rw [beq_iff_eq]
+        exact ((prod_eq_iff _ _ _).1 (h i hi hne)).1
+    · rw [if_pos (by simp [h2])]
+      simp [h2]
+  · rw [if_pos (by rw [notMode_dec]; exact h1)]
+    simp [h1]
+
+theorem getD_map_range {β : Type} (N : Nat) (f : Nat → β) (i : Nat) (d : β) (h : i < N) :
+    ((List.range N).map f).getD i d = f i := by
+  rw [getD_of_lt _ _ _ (by simpa using h)]; simp
+
+theorem validate_mttkrp_ttensor_ok_iff (a : MttkrpArgs) (core : List Nat) (hc : core.length = a.shape.length) :
+    validate_mttkrp_ttensor a core = .ok () ↔ Pre_mttkrp a := by
+  unfold validate_mttkrp_ttensor
+  by_cases h2 : a.U.length = a.shape.length
+  · rw [if_neg (by simp [h2])]
+    by_cases h4 : (usedIdx a.shape.length a.n).all (fun i => (a.U.getD i (0, 0)).1 == a.shape.getD i 0) = true
+    · rw [if_neg (by rw [not_bnot_true]; exact h4), validate_mttkrp_dense_ok_iff]
+      rw [usedIdx_all] at h4
+      unfold Pre_mttkrp
+      simp only [hc, List.length_map, List.length_range, h2, true_and]
+      constructor
+      · rintro ⟨hN, hm, h⟩
+        refine ⟨hN, hm, fun i hi hne => ?_⟩
+        have hW := h i hi hne
+        rw [getD_map_range _ _ _ _ hi, if_neg (show ¬ Int.ofNat i = a.n from hne), prod_eq_iff] at hW
+        rw [prod_eq_iff]
+        refine ⟨beq_iff_eq.1 (h4 i hi hne), ?_⟩
+        rw [hW.2]
+        unfold usedR
+        by_cases hz : a.n = 0
+        · rw [if_pos hz, if_pos hz, getD_map_range _ _ _ _ (by omega : 1 < a.shape.length), if_neg (by rw [hz]; decide)]
+        · rw [if_neg hz, if_neg hz, getD_map_range _ _ _ _ (by omega : 0 < a.shape.length),
+            if_neg (by intro e; exact hz e.symm)]
+      · rintro ⟨hN, hm, h⟩
+        refine ⟨hN, hm, fun i hi hne => ?_⟩
+        rw [getD_map_range _ _ _ _ hi, if_neg (show ¬ Int.ofNat i = a.n from hne), prod_eq_iff]
+        refine ⟨rfl, ?_⟩
+        rw [((prod_eq_iff _ _ _).1 (h i hi hne)).2]
+        unfold usedR
+        by_cases hz : a.n = 0
+        · rw [if_pos hz, if_pos hz, getD_map_range _ _ _ _ (by omega : 1 < a.shape.length), if_neg (by rw [hz]; decide)]
+        · rw [if_neg hz, if_neg hz, getD_map_range _ _ _ _ (by omega : 0 < a.shape.length),
+            if_neg (by intro e; exact hz e.symm)]
+    · rw [if_pos (by rw [bnot_true]; exact h4)]
+      simp only [error_ne_ok, false_iff]
+      rintro ⟨_, _, _, h⟩
+      apply h4
+      rw [usedIdx_all]
+      intro i hi hne
+      rw [beq_iff_eq]
+      exact ((prod_eq_iff _ _ _).1 (h i hi hne)).1
+  · rw [if_pos (by simp [h2])]
+    simp [Pre_mttkrp, h2]
+
+theorem validate_mttkrp_ok_iff (a : MttkrpArgs) : validate_mttkrp a = .ok () ↔ Pre_mttkrp a := by
+  unfold validate_mttkrp
+  cases hr : a.rep with
+  | dense => exact validate_mttkrp_dense_ok_iff a
+  | sparse => exact validate_mttkrp_sparse_ok_iff a
+  | ktensor => exact validate_mttkrp_ktensor_ok_iff a
+  | ttensor => exact validate_mttkrp_ttensor_ok_iff a _ (by simp)
+  | sumtensor =>
+    dsimp only
+    cases hd : validate_mttkrp_dense a with
+    | error e =>
+      simp only [error_ne_ok, false_iff]
+      intro h
+      have := (validate_mttkrp_dense_ok_iff a).2 h
+      rw [hd] at this; cases this
+    | ok u => exact validate_mttkrp_ktensor_ok_iff a
+
+/-! ### shape comparisons -/
+
+theorem validate_sameShape_ok_iff (sa sb : List Nat) : validate_sameShape sa sb = .ok () ↔ Pre_sameShape sa sb := by
+  simp [validate_sameShape, Pre_sameShape]
+
+theorem validate_tenmatAdd_ok_iff (sa sb : List Nat) : validate_tenmatAdd sa sb = .ok () ↔ Pre_tenmatAdd sa sb := by
+  simp [validate_tenmatAdd, Pre_tenmatAdd]
+
+theorem validate_tenmatMul_ok_iff (a b : MatS) : validate_tenmatMul a b = .ok () ↔ Pre_tenmatMul a b := by
+  simp [validate_tenmatMul, Pre_tenmatMul]
+
+/-! ### contract, collapse, scale -/
+
+theorem validate_contract_ok_iff (shape : List Nat) (i j : Int) :
+    validate_contract shape i j = .ok () ↔ Pre_contract shape i j := by
+  unfold validate_contract Pre_contract
+  by_cases h1 : IsMode shape.length i ∧ IsMode shape.length j
+  · have hc : (decide (0 ≤ i) && decide (i < (shape.length : Int)) && decide (0 ≤ j) && decide (j < (shape.length : Int))) = true := by
+      have := (isMode_dec _ _).2 h1.1
+      have := (isMode_dec _ _).2 h1.2
+      simp_all
+    rw [if_neg (by rw [not_bnot_true]; exact hc)]
+    by_cases h2 : shape.getD i.toNat 0 = shape.getD j.toNat 0
+    · rw [if_neg (by rw [bne_iff_ne, ne_eq, not_not]; exact h2), rejectIf_ok, beq_eq_false_iff_ne]
+      simp only [h1.1, h1.2, h2, true_and, and_true]
+    · rw [if_pos (by rw [bne_iff_ne]; exact h2)]
+      simp only [error_ne_ok, false_iff]
+      rintro ⟨_, _, _, h⟩; exact h2 h
+  · have hc : (decide (0 ≤ i) && decide (i < (shape.length : Int)) && decide (0 ≤ j) && decide (j < (shape.length : Int))) = false := by
+      rw [← Bool.not_eq_true]
+      intro hc
+      apply h1
+      simp only [Bool.and_eq_true, decide_eq_true_eq] at hc
+      exact ⟨⟨hc.1.1.1, hc.1.1.2⟩, ⟨hc.1.2, hc.2⟩⟩
+    rw [if_pos (by rw [hc]; rfl)]
+    simp only [error_ne_ok, false_iff]
+    rintro ⟨a, b, _⟩; exact h1 ⟨a, b⟩
+
+theorem validate_collapse_ok_iff (shape : List Nat) (dims : Option (List Int)) :
+    validate_collapse shape dims = .ok () ↔ Pre_collapse shape dims := by
+  unfold validate_collapse Pre_collapse
+  rw [validate_dimscheck_ok_iff]
+  simp [Pre_dimscheck, optAll]
+
+theorem validate_scale_ok_iff (a : ScaleArgs) : validate_scale a = .ok () ↔ Pre_scale a := by
+  unfold validate_scale Pre_scale
+  cases hd : dimscheck19 a.shape.length none (some a.dims) none with
+  | error e =>
+    simp only [error_ne_ok, false_iff]
+    rintro ⟨hm, _⟩
+    have := (dimscheck19_ok_iff a.shape.length none (some a.dims) none _).2 ⟨by simp [Pre_dimscheck, optAll, hm], rfl⟩
+    rw [hd] at this; cases this
+  | ok r =>
+    obtain ⟨hp, rfl⟩ := (dimscheck19_ok_iff _ _ _ _ _).1 hd
+    have hm : ModesOK a.shape.length a.dims := by simpa [Pre_dimscheck, optAll] using hp
+    simp only [selModes, hm, true_and]
+    by_cases hk : a.rep = Rep.sparse ∧ a.fkind = FactorKind.array
+    · rw [if_pos hk, rejectIf_ok, Bool.or_eq_false_iff, bne_eq_false_iff_eq, bne_eq_false_iff_eq, length_sortedModes]
+      simp only [hk, and_self, forall_const]
+      constructor
+      · rintro ⟨h1, h2⟩
+        refine ⟨?_, h1⟩
+        rw [h2, sortedModes_singleton _ h1]; rfl
+      · rintro ⟨h2, h1⟩
+        refine ⟨h1, ?_⟩
+        rw [h2, sortedModes_singleton _ h1]; rfl
+    · rw [if_neg hk, rejectIf_ok, bne_eq_false_iff_eq]
+      constructor
+      · intro h; exact ⟨h, fun h' => absurd h' hk⟩
+      · intro h; exact h.1
+
+/-! ### permute, reshape -/
+
+theorem validate_permute_ok_iff (shape : List Nat) (order : List Int) :
+    validate_permute shape order = .ok () ↔ Pre_permute shape order := by
+  unfold validate_permute Pre_permute
+  rw [rejectIf_ok, Bool.not_eq_false', isPermOfI_iff]
+
+theorem validate_reshape_ok_iff (shape target : List Nat) (old : Option (List Int)) :
+    validate_reshape shape target old = .ok () ↔ Pre_reshape shape target old := by
+  unfold validate_reshape Pre_reshape
+  cases old with
+  | none =>
+    simp only [optAll, true_and, rejectIf_ok, bne_eq_false_iff_eq, Option.getD_none, List.map_map]
+    have : (List.range shape.length).map ((fun d : Int => shape.getD d.toNat 0) ∘ Int.ofNat) = shape := by
+      apply List.ext_getElem
+      · simp
+      · intro i h1 h2
+        simp only [List.length_map, List.length_range] at h1
+        simp only [List.getElem_map, List.getElem_range, Function.comp]
+        exact getD_of_lt _ _ _ h2
+    rw [this]
+    exact eq_comm
+  | some om =>
+    simp only [optAll, Option.getD_some]
+    cases hd : dimscheck19 shape.length none (some om) none with
+    | error e =>
+      simp only [error_ne_ok, false_iff]
+      rintro ⟨hm, _⟩
+      have := (dimscheck19_ok_iff shape.length none (some om) none _).2 ⟨by simp [Pre_dimscheck, optAll, hm], rfl⟩
+      rw [hd] at this; cases this
+    | ok r =>
+      obtain ⟨hp, _⟩ := (dimscheck19_ok_iff _ _ _ _ _).1 hd
+      have hm : ModesOK shape.length om := by simpa [Pre_dimscheck, optAll] using hp
+      simp only [rejectIf_ok, bne_eq_false_iff_eq, hm, true_and]
+
+/-! ### matricization requests -/
+
+theorem validate_toSptenmat_ok_iff (n : Nat) (rdims cdims : Option (List Int)) (cyc : Option Cyclic) :
+    validate_toSptenmat n rdims cdims cyc = .ok () ↔ Pre_toMat n rdims cdims cyc := by
+  unfold validate_toSptenmat Pre_toMat
+  cases wrapDimsI n rdims cdims cyc with
+  | none => simp
+  | some rc => simp [isPermOfI_iff]
+
+/-- every mode the caller listed is still listed after the conventions have been applied -/
+theorem wrapDimsI_keeps (n : Nat) (rdims cdims : Option (List Int)) (cyc : Option Cyclic) (r c : List Int)
+    (h : wrapDimsI n rdims cdims cyc = some (r, c)) :
+    (∀ x ∈ rdims.getD [], x ∈ r ++ c) ∧ (∀ x ∈ cdims.getD [], x ∈ r ++ c) := by
+  cases rdims with
+  | none =>
+    cases cdims with
+    | none => simp [wrapDimsI] at h
+    | some c' =>
+      simp only [wrapDimsI, Option.some.injEq, Prod.mk.injEq] at h
+      obtain ⟨rfl, rfl⟩ := h
+      exact ⟨by simp, fun x hx => List.mem_append_right _ hx⟩
+  | some r' =>
+    cases cdims with
+    | some c' =>
+      simp only [wrapDimsI, Option.some.injEq, Prod.mk.injEq] at h
+      obtain ⟨rfl, rfl⟩ := h
+      exact ⟨fun x hx => List.mem_append_left _ hx, fun x hx => List.mem_append_right _ hx⟩
+    | none =>
+      refine ⟨?_, by simp⟩
+      simp only [Option.getD_some]
+      have key : (r = r' ∧ True) ∨ (c = r') := by
+        match r', cyc, h with
+        | [], _, h => simp only [wrapDimsI, Option.some.injEq, Prod.mk.injEq] at h; exact Or.inl ⟨h.1.symm, trivial⟩
+        | [r0], none, h => simp only [wrapDimsI, Option.some.injEq, Prod.mk.injEq] at h; exact Or.inl ⟨h.1.symm, trivial⟩
+        | [r0], some .t, h => simp only [wrapDimsI, Option.some.injEq, Prod.mk.injEq] at h; exact Or.inr h.2.symm
+        | [r0], some .fc, h => simp only [wrapDimsI, Option.some.injEq, Prod.mk.injEq] at h; exact Or.inl ⟨h.1.symm, trivial⟩
+        | [r0], some .bc, h => simp only [wrapDimsI, Option.some.injEq, Prod.mk.injEq] at h; exact Or.inl ⟨h.1.symm, trivial⟩
+        | _ :: _ :: _, _, h => simp only [wrapDimsI, Option.some.injEq, Prod.mk.injEq] at h; exact Or.inl ⟨h.1.symm, trivial⟩
+      rcases key with ⟨rfl, _⟩ | rfl
+      · intro x hx; exact List.mem_append_left _ hx
+      · intro x hx; exact List.mem_append_right _ hx
+
+theorem wrapDimsI_none_iff (n : Nat) (rdims cdims : Option (List Int)) (cyc : Option Cyclic) :
+    wrapDimsI n rdims cdims cyc = none ↔ rdims = none ∧ cdims = none := by
+  cases rdims with
+  | none => cases cdims <;> simp [wrapDimsI]
+  | some r' =>
+    cases cdims with
+    | some c' => simp [wrapDimsI]
+    | none =>
+      simp only [reduceCtorEq, false_and, iff_false]
+      match r', cyc with
+      | [], _ => simp [wrapDimsI]
+      | [r0], none => simp [wrapDimsI]
+      | [r0], some .t => simp [wrapDimsI]
+      | [r0], some .fc => simp [wrapDimsI]
+      | [r0], some .bc => simp [wrapDimsI]
+      | _ :: _ :: _, _ => simp [wrapDimsI]
+
+theorem optInRange_of_perm (n : Nat) (o : Option (List Int)) (p : List Int) (hp : IsPermI p n)
+    (hk : ∀ x ∈ o.getD [], x ∈ p) : optInRange n o = true := by
+  cases o with
+  | none => rfl
+  | some r =>
+    show allInRange n r = true
+    rw [allInRange_iff]
+    intro m hm
+    exact hp.modesOK.1 m (hk m (by simpa using hm))
+
+theorem validate_toTenmat_ok_iff (n : Nat) (rdims cdims : Option (List Int)) (cyc : Option Cyclic) :
+    validate_toTenmat n rdims cdims cyc = .ok () ↔ Pre_toMat n rdims cdims cyc := by
+  unfold validate_toTenmat Pre_toMat
+  cases hw : wrapDimsI n rdims cdims cyc with
+  | none =>
+    obtain ⟨rfl, rfl⟩ := (wrapDimsI_none_iff _ _ _ _).1 hw
+    simp
+  | some rc =>
+    obtain ⟨r, c⟩ := rc
+    have hnn : ¬ (rdims = none ∧ cdims = none) := by
+      rw [← wrapDimsI_none_iff n rdims cdims cyc, hw]; simp
+    have h1 : (rdims.isNone && cdims.isNone) = false := by
+      cases rdims <;> cases cdims <;> simp_all
+    rw [if_neg (by rw [h1]; simp)]
+    obtain ⟨hkr, hkc⟩ := wrapDimsI_keeps _ _ _ _ _ _ hw
+    show (if (!optInRange n rdims) = true then _ else if (!optInRange n cdims) = true then _ else rejectIf (!isPermOfI (r ++ c) n)) = _ ↔ IsPermI (r ++ c) n
+    by_cases hp : IsPermI (r ++ c) n
+    · rw [if_neg (by rw [not_bnot_true]; exact optInRange_of_perm n rdims _ hp hkr),
+        if_neg (by rw [not_bnot_true]; exact optInRange_of_perm n cdims _ hp hkc)]
+      simp [isPermOfI_iff, hp]
+    · simp only [hp, iff_false]
+      by_cases ha : (!optInRange n rdims) = true
+      · rw [if_pos ha]; simp
+      · rw [if_neg ha]
+        by_cases hb : (!optInRange n cdims) = true
+        · rw [if_pos hb]; simp
+        · rw [if_neg hb, rejectIf_ok, Bool.not_eq_false', isPermOfI_iff]
+          exact hp
+
+/-- the permutation property as a rearrangement of `0 .. n-1` -/
+theorem isPermI_iff_perm (p : List Int) (n : Nat) : IsPermI p n ↔ ((List.range n).map Int.ofNat).Perm p := by
+  constructor
+  · exact IsPermI.perm
+  · intro h
+    refine ⟨by simpa using h.length_eq.symm, fun m hm => ?_⟩
+    exact h.mem_iff.1 (List.mem_map.2 ⟨m, List.mem_range.2 hm, rfl⟩)
+
+/-- the complement followed by the listed modes is a permutation iff the listed modes are
+modes, each listed once -/
+theorem complI_append_perm (n : Nat) (d : List Int) : IsPermI (complI n d ++ d) n ↔ ModesOK n d := by
+  constructor
+  · intro h
+    have hm := h.modesOK
+    exact ⟨fun m hmem => hm.1 m (List.mem_append_right _ hmem), (List.nodup_append.1 hm.2).2.1⟩
+  · intro h
+    rw [isPermI_iff_perm]
+    have h1 : ((List.range n).map Int.ofNat).Perm
+        (((List.range n).map Int.ofNat).filter (fun k => !d.contains k) ++ ((List.range n).map Int.ofNat).filter (fun k => !!d.contains k)) :=
+      (List.filter_append_perm _ _).symm
+    have h2 : (((List.range n).map Int.ofNat).filter (fun k => !!d.contains k)).Perm d := by
+      apply (List.perm_ext_iff_of_nodup ((nodup_range_ofNat n).filter _) h.2).2
+      intro x
+      simp only [List.mem_filter, Bool.not_not, List.contains_eq_mem, decide_eq_true_eq]
+      constructor
+      · exact fun hx => hx.2
+      · intro hx
+        obtain ⟨h0, hlt⟩ := h.1 x hx
+        refine ⟨List.mem_map.2 ⟨x.toNat, List.mem_range.2 (by omega), ?_⟩, hx⟩
+        show Int.ofNat x.toNat = x
+        simp [Int.toNat_of_nonneg h0]
+    exact h1.trans (List.Perm.append_left _ h2)
+
+theorem append_complI_perm (n : Nat) (d : List Int) : IsPermI (d ++ complI n d) n ↔ ModesOK n d := by
+  rw [← complI_append_perm, isPermI_iff_perm, isPermI_iff_perm]
+  exact ⟨fun h => h.trans List.perm_append_comm, fun h => h.trans List.perm_append_comm⟩
+
+theorem pyGet_of_mode (l : List Nat) (k : Int) (h : IsMode l.length k) : pyGet l k = some (l.getD k.toNat 0) := by
+  unfold pyGet
+  rw [if_pos h.1]
+  have : k.toNat < l.length := by have := h.1; have := h.2; omega
+  rw [List.getElem?_eq_getElem this, getD_of_lt _ _ _ this]
+
+theorem pyGather_of_modes (l : List Nat) (ks : List Int) (h : ∀ k ∈ ks, IsMode l.length k) :
+    pyGather l ks = .ok (ks.map (fun k => l.getD k.toNat 0)) := by
+  unfold pyGather
+  induction ks with
+  | nil => rfl
+  | cons k rest ih =>
+    rw [List.mapM_cons, pyGet_of_mode l k (h k (List.mem_cons_self ..))]
+    have := ih (fun k' hk' => h k' (List.mem_cons_of_mem _ hk'))
+    simp only [bind, Except.bind, this, List.map_cons, pure, Except.pure]
+
+theorem map_eq_map_iff_getD (xd yd : List Int) (f g : Int → Nat) :
+    xd.map f = yd.map g ↔ xd.length = yd.length ∧ ∀ k, k < xd.length → f (xd.getD k 0) = g (yd.getD k 0) := by
+  constructor
+  · intro h
+    have hl : xd.length = yd.length := by simpa using congrArg List.length h
+    refine ⟨hl, fun k hk => ?_⟩
+    have := congrArg (fun l => l[k]?) h
+    simp only [List.getElem?_map] at this
+    rw [List.getElem?_eq_getElem hk, List.getElem?_eq_getElem (hl ▸ hk)] at this
+    simp only [Option.map_some, Option.some.injEq] at this
+    rw [getD_of_lt _ _ _ hk, getD_of_lt _ _ _ (hl ▸ hk)]
+    exact this
+  · rintro ⟨hl, h⟩
+    apply List.ext_getElem (by simpa using hl)
+    intro i h1 h2
+    simp only [List.length_map] at h1 h2
+    have := h i h1
+    rw [getD_of_lt _ _ _ h1, getD_of_lt _ _ _ h2] at this
+    simpa using this
+
+theorem validate_ttt_ok_iff (a : TttArgs) : validate_ttt a = .ok () ↔ Pre_ttt a := by
+  have hx : validate_toTenmat a.sa.length none (some a.xd) none = .ok () ↔ ModesOK a.sa.length a.xd := by
+    rw [validate_toTenmat_ok_iff]; exact complI_append_perm _ _
+  have hy : validate_toTenmat a.sb.length (some a.yd) none none = .ok () ↔ ModesOK a.sb.length a.yd := by
+    rw [validate_toTenmat_ok_iff]
+    have : wrapDimsI a.sb.length (some a.yd) none none = some (a.yd, complI a.sb.length a.yd) := by
+      unfold wrapDimsI; split <;> simp_all
+    unfold Pre_toMat
+    rw [this]
+    exact append_complI_perm _ _
+  unfold Pre_ttt
+  by_cases hmx : ModesOK a.sa.length a.xd
+  · by_cases hmy : ModesOK a.sb.length a.yd
+    · unfold validate_ttt
+      rw [pyGather_of_modes _ _ hmx.1, pyGather_of_modes _ _ hmy.1]
+      simp only [hmx, hmy, true_and]
+      by_cases he : a.xd.map (fun k => a.sa.getD k.toNat 0) = a.yd.map (fun k => a.sb.getD k.toNat 0)
+      · rw [if_neg (by rw [bne_iff_ne, ne_eq, not_not]; exact he), hx.2 hmx, hy.2 hmy]
+        simp only [true_iff]
+        exact (map_eq_map_iff_getD _ _ _ _).1 he
+      · rw [if_pos (by rw [bne_iff_ne]; exact he)]
+        simp only [error_ne_ok, false_iff]
+        intro h; exact he ((map_eq_map_iff_getD _ _ _ _).2 h)
+    · simp only [hmy, false_and, and_false, iff_false]
+      intro h
+      unfold validate_ttt at h
+      split at h
+      · split at h
+        · cases h
+        · cases hv : validate_toTenmat a.sa.length none (some a.xd) none with
+          | ok u => rw [hv] at h; exact hmy (hy.1 h)
+          | error e => rw [hv] at h; cases h
+      · cases h
+  · simp only [hmx, false_and, iff_false]
+    intro h
+    unfold validate_ttt at h
+    split at h
+    · split at h
+      · cases h
+      · cases hv : validate_toTenmat a.sa.length none (some a.xd) none with
+        | ok u => exact hmx (hx.1 (by rw [hv]))
+        | error e => rw [hv] at h; cases h
+    · cases h
+
+/-! ### constructors -/
+
+theorem validate_tensor_ok_iff (dshape shape : List Nat) (hs : shape ≠ []) :
+    validate_tensor dshape shape = .ok () ↔ Pre_tensor dshape shape := by
+  unfold validate_tensor Pre_tensor
+  rw [if_neg (by simpa using hs), rejectIf_ok, bne_eq_false_iff_eq]
+  exact eq_comm
+
+theorem all_rowInShape (shape : List Nat) (subs : List (List Int)) :
+    subs.all (rowInShape shape) = true ↔ ∀ row ∈ subs, RowInShape shape row := by
+  rw [List.all_eq_true]
+  exact ⟨fun h row hr => (rowInShape_iff _ _).1 (h row hr), fun h row hr => (rowInShape_iff _ _).2 (h row hr)⟩
+
+theorem validate_sptensor_ok_iff (a : SubsArgs) : validate_sptensor a = .ok () ↔ Pre_subs a := by
+  unfold validate_sptensor Pre_subs
+  by_cases he : a.subs = []
+  · rw [if_pos (by simp [he]), rejectIf_ok]
+    simp [he]
+  · rw [if_neg (by simpa using he)]
+    by_cases h1 : a.nvals = a.subs.length
+    · rw [if_neg (by simp [h1])]
+      by_cases h2 : a.width = a.shape.length
+      · rw [if_neg (by simp [h2]), rejectIf_ok, Bool.not_eq_false', all_rowInShape]
+        simp [he, h1, h2]
+      · rw [if_pos (by simp [h2])]
+        simp [he, h2]
+    · rw [if_pos (by simp [h1])]
+      simp [h1]
+
+theorem validate_extract_ok_iff (a : SubsArgs) : validate_extract a = .ok () ↔ Pre_extract a := by
+  unfold validate_extract Pre_extract
+  by_cases h2 : a.width = a.shape.length
+  · rw [if_neg (by simp [h2]), rejectIf_ok, Bool.not_eq_false', all_rowInShape]
+    simp [h2]
+  · rw [if_pos (by simp [h2])]
+    simp [h2]
+
+/-- a row inside the shape has no negative entry among its first `N` columns; `from_aggregator`
+tests the sign of every entry, which for an array with one column per mode is the same -/
+theorem validate_fromAggregator_ok_iff (a : SubsArgs) (hw : ∀ row ∈ a.subs, row.length = a.width) :
+    validate_fromAggregator a = .ok () ↔ Pre_subs a := by
+  unfold validate_fromAggregator Pre_subs
+  by_cases he : a.subs = []
+  · simp only [he, List.all_nil, Bool.not_true, Bool.false_eq_true, if_false, List.length_nil, List.isEmpty_nil,
+      Bool.false_and, ne_eq, not_true_eq_false, false_implies, List.not_mem_nil, true_and, implies_true]
+    by_cases h1 : a.nvals = 0
+    · simp [h1, rejectIf]
+    · simp [h1]
+  · by_cases h0 : a.subs.all (fun row => row.all (fun x => decide (0 ≤ x))) = true
+    · rw [if_neg (by rw [not_bnot_true]; exact h0)]
+      by_cases h1 : a.nvals = a.subs.length
+      · rw [if_neg (by simp [h1])]
+        by_cases h2 : a.width = a.shape.length
+        · rw [if_neg (by simp [h2]), if_neg (by simp [h2]), rejectIf_ok, Bool.not_eq_false', all_rowInShape]
+          simp [he, h1, h2]
+        · by_cases h3 : a.width > a.shape.length
+          · rw [if_pos (by simp [he, h3])]
+            simp [he, h2]
+          · rw [if_neg (by simp [he, h3]), if_pos (by simp [he]; omega)]
+            simp [he, h2]
+      · rw [if_pos (by simp [h1])]
+        simp [h1]
+    · rw [if_pos (by rw [bnot_true]; exact h0)]
+      simp only [error_ne_ok, false_iff]
+      rintro ⟨hwid, hrows, _⟩
+      apply h0
+      rw [List.all_eq_true]
+      intro row hr
+      rw [List.all_eq_true]
+      intro x hx
+      obtain ⟨k, hk, rfl⟩ := List.mem_iff_getElem.1 hx
+      have hlen := hw row hr
+      have := (hrows row hr) k (by rw [← hwid he, ← hlen]; exact hk)
+      rw [getD_of_lt _ _ _ hk] at this
+      simpa using this.1
+
+theorem validate_ktensor_ok_iff (fs : List MatS) (nw : Option Nat) :
+    validate_ktensor fs nw = .ok () ↔ Pre_ktensor fs nw := by
+  unfold validate_ktensor Pre_ktensor
+  cases fs with
+  | nil => simp
+  | cons f0 rest =>
+    simp only [ne_eq, reduceCtorEq, not_false_eq_true, List.getD_cons_zero, true_and]
+    by_cases h : (f0 :: rest).all (fun f => f.2 == f0.2) = true
+    · rw [if_neg (by rw [not_bnot_true]; exact h)]
+      have h' : ∀ f ∈ f0 :: rest, f.2 = f0.2 := by simpa [List.all_eq_true] using h
+      cases nw with
+      | none =>
+        simp only [optAll, and_true, true_iff]
+        exact fun f hf => h' f hf
+      | some w =>
+        simp only [optAll, rejectIf_ok, bne_eq_false_iff_eq]
+        exact ⟨fun hw => ⟨fun f hf => h' f hf, hw⟩, fun hw => hw.2⟩
+    · rw [if_pos (by rw [bnot_true]; exact h)]
+      simp only [error_ne_ok, false_iff]
+      rintro ⟨h', _⟩
+      apply h
+      simpa [List.all_eq_true] using h'
+
+theorem validate_ttensor_ok_iff (core : List Nat) (fs : List MatS) :
+    validate_ttensor core fs = .ok () ↔ Pre_ttensor core fs := by
+  unfold validate_ttensor Pre_ttensor
+  by_cases h : core.length = fs.length
+  · rw [if_neg (by simp [h]), rejectIf_ok, Bool.not_eq_false', List.all_eq_true]
+    simp only [List.mem_range, beq_iff_eq, h, true_and]
+  · rw [if_pos (by simp [h])]
+    simp only [error_ne_ok, false_iff]
+    rintro ⟨h', _⟩; exact h h'.symm
+
+theorem validate_sumtensor_ok_iff (shapes : List (List Nat)) :
+    validate_sumtensor shapes = .ok () ↔ Pre_sumtensor shapes := by
+  unfold validate_sumtensor Pre_sumtensor
+  rw [rejectIf_ok, Bool.not_eq_false', List.all_eq_true]
+  cases shapes with
+  | nil => simp
+  | cons s0 rest =>
+    simp only [List.drop_one, List.tail_cons, List.getD_cons_zero, beq_iff_eq, List.mem_cons, forall_eq_or_imp, true_and]
+    exact ⟨fun h s hs => (h s hs).symm, fun h s hs => (h s hs).symm⟩
+
+theorem validate_fromVector_ok_iff (shape : List Nat) (n : Nat) (cw : Bool) :
+    validate_fromVector shape n cw = .ok () ↔ Pre_fromVector shape n cw := by
+  unfold validate_fromVector Pre_fromVector
+  by_cases h : shape.sum + (if cw = true then 1 else 0) = 0
+  · rw [if_pos (by simp [h])]
+    simp [h]
+  · rw [if_neg (by simpa using h), rejectIf_ok, bne_eq_false_iff_eq]
+    constructor
+    · intro h'; exact ⟨h', by omega⟩
+    · intro h'; exact h'.1
+
+/-- the cells of the row modes times the cells of the column modes are the cells of the
+tensor when the two lists together are a permutation of the modes -/
+theorem numel_split (tshape : List Nat) (r c : List Int) (h : IsPermI (r ++ c) tshape.length) :
+    numel (r.map (fun k => tshape.getD k.toNat 0)) * numel (c.map (fun k => tshape.getD k.toNat 0)) = numel tshape := by
+  rw [← numel_append, ← List.map_append]
+  have hp := (h.perm.map (fun k : Int => tshape.getD k.toNat 0)).symm
+  rw [numel_perm hp, List.map_map]
+  have : (List.range tshape.length).map ((fun k : Int => tshape.getD k.toNat 0) ∘ Int.ofNat) = tshape := by
+    have h0 := Pyttb.map_getD_range tshape
+    calc (List.range tshape.length).map ((fun k : Int => tshape.getD k.toNat 0) ∘ Int.ofNat)
+        = (List.range tshape.length).map (fun k => tshape.getD k 0) := by
+          apply List.map_congr_left
+          intro k _
+          rfl
+      _ = tshape := h0
+  rw [this]
+
+theorem validate_tenmat_ok_iff (a : TenmatArgs) : validate_tenmat a = .ok () ↔ Pre_tenmat a := by
+  unfold validate_tenmat Pre_tenmat Pre_toMat
+  by_cases h1 : a.dshape.1 * a.dshape.2 = numel a.tshape
+  · rw [if_neg (by simp [h1])]
+    cases hw : wrapDimsI a.tshape.length a.rdims a.cdims none with
+    | none => simp [h1]
+    | some rc =>
+      obtain ⟨r, c⟩ := rc
+      simp only [h1, true_and]
+      by_cases hp : IsPermI (r ++ c) a.tshape.length
+      · have hm := hp.modesOK
+        rw [pyGather_of_modes _ _ (fun k hk => hm.1 k (List.mem_append_left _ hk)),
+          pyGather_of_modes _ _ (fun k hk => hm.1 k (List.mem_append_right _ hk))]
+        simp only [numel_split a.tshape r c hp, h1, bne_self_eq_false, Bool.false_eq_true, if_false, rejectIf_ok,
+          Bool.not_eq_false', isPermOfI_iff, hp]
+      · simp only [hp, iff_false]
+        intro h
+        split at h
+        · split at h
+          · cases h
+          · rw [rejectIf_ok, Bool.not_eq_false', isPermOfI_iff] at h; exact hp h
+        · cases h
+  · rw [if_pos (by simp [h1])]
+    simp [h1]
+
+theorem validate_sptenmat_ok_iff (a : SptenmatArgs) : validate_sptenmat a = .ok () ↔ Pre_sptenmat a := by
+  unfold validate_sptenmat Pre_sptenmat
+  cases hw : wrapDimsI a.tshape.length a.rdims a.cdims none with
+  | none => simp
+  | some rc =>
+    obtain ⟨r, c⟩ := rc
+    simp only
+    unfold sptenmatTail
+    by_cases hp : IsPermI (r ++ c) a.tshape.length
+    · rw [if_neg (by rw [not_bnot_true, isPermOfI_iff]; exact hp)]
+      by_cases h2 : a.subs ≠ [] → a.width = 2
+      · rw [if_neg (by
+          intro hc
+          simp only [Bool.and_eq_true, Bool.not_eq_true', List.isEmpty_eq_false_iff, bne_iff_ne] at hc
+          exact hc.2 (h2 hc.1))]
+        by_cases h3 : a.subs.all (fun row => decide (0 ≤ row.getD 0 0) && decide (0 ≤ row.getD 1 0)) = true
+        · rw [if_neg (by rw [not_bnot_true]; exact h3)]
+          by_cases h4 : a.subs.all (fun row => decide (row.getD 0 0 < (sideSize a.tshape r : Int))) = true
+          · rw [if_neg (by rw [not_bnot_true]; exact h4)]
+            by_cases h5 : a.subs.all (fun row => decide (row.getD 1 0 < (sideSize a.tshape c : Int))) = true
+            · rw [if_neg (by rw [not_bnot_true]; exact h5), rejectIf_ok, bne_eq_false_iff_eq]
+              simp only [List.all_eq_true, Bool.and_eq_true, decide_eq_true_eq] at h3 h4 h5
+              simp only [hp, true_and]
+              constructor
+              · intro hn; exact ⟨h2, fun row hr => ⟨(h3 row hr).1, h4 row hr, (h3 row hr).2, h5 row hr⟩, hn⟩
+              · intro hn; exact hn.2.2
+            · rw [if_pos (by rw [bnot_true]; exact h5)]
+              simp only [error_ne_ok, false_iff]
+              rintro ⟨_, _, hr, _⟩
+              apply h5
+              simp only [List.all_eq_true, decide_eq_true_eq]
+              exact fun row hrow => (hr row hrow).2.2.2
+          · rw [if_pos (by rw [bnot_true]; exact h4)]
+            simp only [error_ne_ok, false_iff]
+            rintro ⟨_, _, hr, _⟩
+            apply h4
+            simp only [List.all_eq_true, decide_eq_true_eq]
+            exact fun row hrow => (hr row hrow).2.1
+        · rw [if_pos (by rw [bnot_true]; exact h3)]
+          simp only [error_ne_ok, false_iff]
+          rintro ⟨_, _, hr, _⟩
+          apply h3
+          simp only [List.all_eq_true, Bool.and_eq_true, decide_eq_true_eq]
+          exact fun row hrow => ⟨(hr row hrow).1, (hr row hrow).2.2.1⟩
+      · rw [if_pos (by
+          simp only [Bool.and_eq_true, Bool.not_eq_true', List.isEmpty_eq_false_iff, bne_iff_ne]
+          exact ⟨fun e => h2 (fun hne => absurd e hne), fun e => h2 (fun _ => e)⟩)]
+        simp only [error_ne_ok, false_iff]
+        rintro ⟨_, h, _⟩; exact h2 h
+    · rw [if_pos (by rw [bnot_true, isPermOfI_iff]; exact hp)]
+      simp [hp]
+
+/-! ### Kruskal mode arguments, masks, Khatri-Rao -/
+
+theorem validate_kmode_ok_iff (N : Nat) (m : Int) : validate_kmode N m = .ok () ↔ Pre_kmode N m := by
+  unfold validate_kmode Pre_kmode
+  rw [rejectIf_ok, Bool.not_eq_false', isMode_dec]
+
+theorem validate_karrange_ok_iff (R : Nat) (p : List Int) : validate_karrange R p = .ok () ↔ Pre_karrange R p := by
+  unfold validate_karrange Pre_karrange
+  rw [rejectIf_ok, Bool.not_eq_false', isPermOfI_iff]
+
+theorem validate_kextract_ok_iff (R : Nat) (idx : List Int) : validate_kextract R idx = .ok () ↔ Pre_kextract R idx := by
+  unfold validate_kextract Pre_kextract
+  by_cases h : idx.length = 0 ∨ idx.length > R
+  · rw [if_pos (by simpa using h)]
+    simp only [error_ne_ok, false_iff]
+    rintro ⟨_, _, _⟩; omega
+  · rw [if_neg (by simpa using h), rejectIf_ok, Bool.not_eq_false', allInRange_iff]
+    constructor
+    · intro h'; exact ⟨by omega, by omega, h'⟩
+    · intro h'; exact h'.2.2
+
+theorem validate_mask_ok_iff (shape wshape : List Nat) : validate_mask shape wshape = .ok () ↔ Pre_mask shape wshape := by
+  unfold validate_mask Pre_mask
+  by_cases h : wshape.length = shape.length
+  · rw [if_neg (by simp [h]), rejectIf_ok, List.any_eq_false]
+    simp only [h, true_and, List.mem_range, decide_eq_true_eq, Nat.not_lt]
+  · rw [if_pos (by simp [h])]
+    simp [h]
+
+theorem validate_khatrirao_ok_iff (ms : List MatS) (rev : Bool) :
+    validate_khatrirao ms rev = .ok () ↔ Pre_khatrirao ms := by
+  unfold validate_khatrirao Pre_khatrirao
+  rw [map_unit_ok]
+  have key : ∀ g : List MatS, (∃ c, krCols g = .ok c) ↔ g ≠ [] ∧ ∀ m ∈ g, ∀ m' ∈ g, m.2 = m'.2 := by
+    intro g
+    constructor
+    · rintro ⟨c, hc⟩
+      obtain ⟨hne, _, hall⟩ := (krCols_ok_iff g c).1 hc
+      rw [List.all_eq_true] at hall
+      refine ⟨hne, fun m hm m' hm' => ?_⟩
+      rw [beq_iff_eq.1 (hall m hm), beq_iff_eq.1 (hall m' hm')]
+    · rintro ⟨hne, h⟩
+      refine ⟨_, (krCols_ok_iff g _).2 ⟨hne, rfl, ?_⟩⟩
+      rw [List.all_eq_true]
+      intro x hx
+      rw [beq_iff_eq]
+      apply h x hx
+      cases g with
+      | nil => exact absurd rfl hne
+      | cons y ys => simp
+  rw [key]
+  cases rev with
+  | false => simp
+  | true =>
+    simp only [if_true, ne_eq, List.reverse_eq_nil_iff, List.mem_reverse]
+
+/-! ### in-place operations -/
+
+theorem inPlace_reject {σ : Type} (v : Except Reject Unit) (step : σ → σ) (s : σ) (h : v = .error .reject) :
+    inPlace v step s = (s, .error .reject) := by
+  subst h; rfl
+
 end Pyttb
